@@ -14,15 +14,14 @@ func VH_C06_Structure() {
 	inYear := 0
 	leaps := 0
 	days := 0
-	reform := false
+	// the property's structural clauses are stated outside the two modelled reforms (AD 8-23, AD 236-240);
+	// tables of years touching them (the table of year Y spans Y-1 .. Y+1) are exempt from those clauses only
+	reform := Y >= 7 && Y <= 25 || Y >= 235 && Y <= 242
 	lastNo := 0
 	for i := ly.months.Front(); i != nil; i = i.Next() {
 		mm := i.Value.(*LunarMonth)
 		n++
 		f := vhMonthFirstJDN(mm)
-		if vhInReform(f) {
-			reform = true
-		}
 		if prev != nil {
 			vAssert("contiguous", f == vhMonthFirstJDN(prev)+prev.dayCount)
 		}
@@ -31,15 +30,15 @@ func VH_C06_Structure() {
 			days += mm.dayCount
 			if mm.month < 0 {
 				leaps++
-				if !vhInReform(f) {
+				if !(reform || vhInReform(f)) {
 					vAssert("leap-follows-its-month", prev != nil && prev.year == Y && prev.month == -mm.month)
 				}
-			} else if !vhInReform(f) {
+			} else if !(reform || vhInReform(f)) {
 				vAssert("numbered-in-order", mm.month == lastNo+1)
 				lastNo = mm.month
 			}
 		}
-		if !vhInReform(f) {
+		if !(reform || vhInReform(f)) {
 			vAssert("29-or-30", mm.dayCount == 29 || mm.dayCount == 30)
 			vAssert("month-number", (mm.month >= 1 && mm.month <= 12) || (mm.month <= -1 && mm.month >= -12))
 		}
@@ -88,8 +87,12 @@ func VH_C06_Navigate() {
 			ms = append(ms, mm)
 		}
 	}
-	k := vInt("k", 0, len(ms)-1)
-	start := ms[vConcretize(k)]
+	k := vParam("K")
+	if k >= len(ms) {
+		vReach("C06b")
+		return
+	}
+	start := ms[k]
 	n := vInt("n", -N, N)
 	var t *LunarMonth
 	vAssert("next-no-panic", !vPanics(func() { t = start.Next(n) }))
